@@ -400,13 +400,19 @@ def check(prop, tier, seed):
                          max(10, b['wall'] - (time.time() - t0))))
     t_batch = time.time() - t0
     ok = [r for r in res if 'trace_digest' in r]
+    # a run the harness itself could not produce or judge (generator / model
+    # exception, run timeout) explored nothing; a handful of them in a batch of
+    # thousands is reported in the evidence, more than 0.2 % fails the check
+    run_errors = []
     for r in res:
         if r.get('harness_error'):
-            harness_errors.append('run %s: %s\n%s' % (r['run'],
-                                                      r['harness_error'],
-                                                      r.get('tb', '')))
+            run_errors.append('run %s: %s\n%s' % (r['run'],
+                                                  r['harness_error'],
+                                                  r.get('tb', '')))
         if r.get('timeout'):
-            harness_errors.append('run %s: timeout' % r['run'])
+            run_errors.append('run %s: timeout' % r['run'])
+    if len(run_errors) > max(2, 0.002 * max(1, len(res))):
+        harness_errors.extend(run_errors)
     for r in ok:
         for v in r['viol']:
             if prop in v['props']:
@@ -556,11 +562,14 @@ def check(prop, tier, seed):
             fidelity = {'error': repr(e)}
     # ---- evidence ----------------------------------------------------------
     wall = time.time() - t0
+    for h in run_errors[:5]:
+        print('NOTE: run not explored (harness): %s' % h[:600])
     ev = build_evidence(prop, tier, seed, ok, res, corpus, reported,
                         known_hits, harness_errors, unconfirmed, det_runs,
                         det_bad, alt_runs, alt, alt_trace_bad, alt_result_bad,
                         wall, t_batch, extra)
     os.makedirs(os.path.join(OUT, 'evidence'), exist_ok=True)
+    ev['coverage']['runs_not_explored_harness'] = len(run_errors)
     if fidelity is not None:
         ev['coverage']['stub_fidelity_vs_real_joblib'] = fidelity
     with open(os.path.join(OUT, 'evidence', prop + '.json'), 'w') as f:
